@@ -59,9 +59,18 @@ def _list_items(cp):
     eam_dens_items = _list_eam_dens(cp)
     items.extend(eam_dens_items)
 
+  # [Table-Form:NAME] sections
+  raw_cp = cp.raw_config_parser
+  table_form_sections = [s for s in raw_cp.sections() if s.startswith("Table-Form:")]
+  items.extend(_parse_raw(cp, table_form_sections))
+
   orphan_sections = cp.orphan_sections
   raw_items = _parse_raw(cp, orphan_sections)
   items.extend(raw_items)
+
+  # [Variables] is the config parser's default section and is not returned by sections()
+  if raw_cp.defaults():
+    items.extend(_list_section(cp, raw_cp.default_section))
   return items
 
 def _list_item_labels(cp):
@@ -79,8 +88,17 @@ def _list_plot_item_labels(cp):
   return outlist  
 
 def _item_value(cp, key):
-  section, section_key = key.split(":",1)
-  v = cp.raw_config_parser[section][section_key]
+  raw_cp = cp.raw_config_parser
+  # Section names can themselves contain a colon (e.g. [Table-Form:NAME]), look for the
+  # section that `key` starts with before falling back to splitting at the first colon.
+  section_names = list(raw_cp.sections()) + [raw_cp.default_section]
+  matches = [s for s in section_names if key.startswith(s + ":")]
+  if matches:
+    section = max(matches, key = len)
+    section_key = key[len(section)+1:]
+  else:
+    section, section_key = key.split(":",1)
+  v = raw_cp[section][section_key]
   return v 
 
 def action_list_items(cp):
